@@ -141,8 +141,17 @@ func c08(c *ctx) {
 	}
 	// sizes: hundreds of rules (crosses the uint8 rule-type boundary, also through actions)
 	nbig := tierN(c, 3, 10)
-	for b := 0; b < nbig; b++ {
+	// exact boundary sizes: without captures a grammar of nr rules + nr actions has 2*nr+1 rule ids (+1 for the
+	// unknown rule constant): 125..129 rules straddle the 8-bit limits 255/256/257 on every counter involved
+	boundary := []int{126, 127, 128}
+	if c.env.Tier == "thorough" {
+		boundary = []int{124, 125, 126, 127, 128, 129, 253, 254, 255, 256}
+	}
+	for b := 0; b < nbig+len(boundary); b++ {
 		nr := 130 + r.Intn(300)
+		if b >= nbig {
+			nr = boundary[b-nbig]
+		}
 		g := &gram.Grammar{}
 		var top []*gram.Expr
 		for i := 1; i <= nr; i++ {
@@ -151,7 +160,7 @@ func c08(c *ctx) {
 		g.Rules = append(g.Rules, &gram.Rule{Name: "R0", E: gram.Un(gram.KStar, gram.Alt(top...))})
 		for i := 1; i <= nr; i++ {
 			body := gram.Seq(gram.Lit(fmt.Sprintf("k%d;", i)), gram.Act())
-			if b%2 == 1 {
+			if b%2 == 1 && b < nbig {
 				body = gram.Seq(gram.Un(gram.KCapture, gram.Lit(fmt.Sprintf("k%d;", i))), gram.Act(), gram.Un(gram.KQuery, gram.Act()))
 			}
 			g.Rules = append(g.Rules, &gram.Rule{Name: fmt.Sprintf("R%d", i), E: body})
@@ -258,7 +267,7 @@ func c08(c *ctx) {
 		c08huge(c, peg)
 	}
 	requireCov(c, "packages_ok", "grammars_many", "grammars_no", "grammars_surface", "grammars_profile", "grammars_warned")
-	c.run.Rule = "cases: grammars from all profiles plus a surface profile (user imports single/several/grouped/aliased/duplicating runtime imports/sorting differently with and without alias — each used by the parser state so that they are needed; header comments with # and // and blank-line runs; state with nested braces; literals and classes over NUL, control, quote, bracket, dash, caret, backslash, Latin-1, U+2028, non-BMP and U+10FFFF characters; actions, state changes and predicates containing /* */ and // comments, '*/' in strings, nested braces, raw strings; grammars without any terminal; captures nobody reads; actions without capture; grammars accepted with warnings only: unused rules, undefined names, left recursion) and grammars of 130-430 rules (x1-3 actions each: beyond 255 rule ids; in the thorough tier one 33 000-rule grammar with 66 001 rule ids is generated and checked for syntax, 32-bit rule type and gofmt form but not compiled — the Go compiler needs hours for it); each generated with the real peg under all eight -inline/-switch/-noast combinations. " +
+	c.run.Rule = "cases: grammars from all profiles plus a surface profile (user imports single/several/grouped/aliased/duplicating runtime imports/sorting differently with and without alias — each used by the parser state so that they are needed; header comments with # and // and blank-line runs; state with nested braces; literals and classes over NUL, control, quote, bracket, dash, caret, backslash, Latin-1, U+2028, non-BMP and U+10FFFF characters; actions, state changes and predicates containing /* */ and // comments, '*/' in strings, nested braces, raw strings; grammars without any terminal; captures nobody reads; actions without capture; grammars accepted with warnings only: unused rules, undefined names, left recursion) and grammars of 130-430 rules plus exact boundary sizes (126-128 rules = 253-257 rule ids; more in thorough) (x1-3 actions each: beyond 255 rule ids; in the thorough tier one 33 000-rule grammar with 66 001 rule ids is generated and checked for syntax, 32-bit rule type and gofmt form but not compiled — the Go compiler needs hours for it); each generated with the real peg under all eight -inline/-switch/-noast combinations. " +
 		"Oracle: exit 0, empty stderr (warnings only for the warned kind), the file compiles together with a file that uses the public API, and go/format.Source(file) == file. distinct_nontrivial = distinct emitted files (sha256 below the header line) that passed."
 	c.run.Assume("rule names R<n>/H<n>..., actions are valid Go; predicates are Go expressions (a trailing // comment inside a predicate is not an expression and is not generated); actions use text only in grammars with a capture")
 }
